@@ -90,3 +90,17 @@ PROPS['C19'] = dict(
     level_note='Trusted: Coq kernel, extraction, harness. Oracle: mime.WordDecoder.DecodeHeader for lines containing "=?" (Go\'s identity fast path for other lines is modelled); strings.ToLower on non-ASCII names. bufio.Reader is abstracted to remaining bytes + a persistent EOF/error tail; its internal 4096-byte chunking is exercised by the generator (9 KB sections sweeping the boundary) but not modelled. Reading of the text: the blank line belongs to the marshaler, an empty field list serializes to the empty string.',
     assumptions=['bufio.Reader.ReadBytes/Peek behave as on an unbounded byte list with a persistent tail condition'],
 )
+
+PROPS['C16'] = dict(
+    id='C16',
+    domains=['block'],
+    n=dict(quick=3000, thorough=150000),
+    theorems=[('Properties.C16', ['C16_accessors_answer_from_the_complete_block', 'C16_digests_and_size_describe_the_complete_block', 'C16_cached_readers_start_at_the_first_byte', 'C16_uncached_reaccess_is_an_explicit_error'])],
+    classify=lambda c, i, m, s: 'panic' if 'PANIC' in i else 'accessor-order-dependent',
+    rule='accessor sequences (1-8 calls of RawBytes/PayloadBytes with drain none/partial/full, BlockDigest, PayloadDigest, Size, Cache, IsCached) on blocks constructed as parseBlock does (generic, HTTP request/response, warc-fields, revisit), from a seekable spill buffer (builder) or a one-shot stream (parser), 4 algorithms x 3 encodings, spill thresholds from 1 byte to above the block size; distinct = distinct implementation observations; non-trivial = at least one data or digest observation',
+    nontrivial=lambda c, o: 'd:h' in o or 's:h' in o,
+    stats=lambda c, o: ['kind:' + c.split()[1], 'cached:' + c.split()[2]] + (['reaccess-error'] if 'err' in o else []),
+    level_text='Proved in Coq by refinement with an invariant, for every protocol header, payload, cached/uncached source and accessor sequence of any length: the content-access state machine of generic and HTTP blocks (digesting first reader, frozen digest strings, seek-to-start readers, Cache) gives exactly the answers of a specification that is a function of the complete block: digests and size of the whole block, readers of cached blocks from the first byte, the explicit error on re-access of an uncached block. Model tied to block.go/httpblock.go by constructing blocks as parseBlock does (white-box) from seekable and one-shot sources and running the same accessor sequences; digest texts are computed by the Digest model with hashes from Python hashlib.',
+    level_note='Trusted: Coq kernel, extraction, harness. Readers are drained (fully, partly, not at all) before the next accessor call - a reader kept and used after a later call is outside the statement. warc-fields and revisit blocks are constant blocks (checked by correspondence as cached blocks; PayloadDigest of a revisit block is a stored string and is exercised in C20). Hash functions and base32/64 decoders are oracles.',
+    assumptions=['readers are drained to the stated extent before the next accessor call'],
+)
